@@ -9,6 +9,7 @@ import (
 
 	"github.com/dave/dst"
 	"github.com/dave/dst/decorator"
+	"github.com/dave/dst/dstutil"
 
 	"verif/core"
 	"verif/explore"
@@ -326,7 +327,7 @@ func init() {
 		ID:    "C02",
 		Level: "model_checking",
 		Rule: "10 list kinds (select clauses included; a clause whose body holds only comment lines among the inner layouts) x two lists (3+2 elements of different shapes) x comment layouts (7 configurations per element: none, 1 or 2 leading lines, trailing, leading+trailing, inner, inner nested list with trailing + dangling comment) x separator {newline, blank line, inline}; " +
-			"layouts whose elements do not all carry the same (Before, After) are outside the quantifier (counted); explicit-state BFS from the identity arrangement over swap/delete/duplicate-with-Clone (after, at end)/move-to-other-list, " +
+			"layouts whose elements do not all carry the same (Before, After) are outside the quantifier (counted); explicit-state BFS from the identity arrangement over swap/delete/duplicate-with-Clone (after, at end)/move-to-other-list (single deletions and duplications also made through dstutil.Apply cursors, which must give the same tree), " +
 			"depth 1 on all layouts and depth 2 on 49 per kind (quick); depth 2 on all layouts and depth 3 on the 7 uniform ones per kind (thorough); successor = fresh parse + replay; oracle: print (plain, and by a Restorer with Extras) == gofmt(text whose chunks were edited the same way); equal arrangements reached by different histories print equally; " +
 			"state = (kind, layout, arrangement of element ids); non-trivial = arrangement differing from the identity with at least one comment",
 		Assumptions: []string{"a chunk = element + its directly preceding comment lines + its trailing same-line comment", "go/format normalises both sides"},
@@ -472,11 +473,13 @@ func c02Exec(cs c02Case) (out core.Outcome, key string, uniform bool) {
 	lists := [2][]int{{0, 1, 2}, {3, 4}}
 	// initial texts, canonicalised
 	var files []*dst.File
+	var srcs []string
 	for _, raw := range k.render(cs, lists) {
 		src, err := gofmt(raw)
 		if err != nil {
 			return core.Outcome{}, "", false // layout not expressible
 		}
+		srcs = append(srcs, src)
 		f, err := decorator.Parse(src)
 		if err != nil {
 			return core.Outcome{}, "", false
@@ -525,6 +528,44 @@ func c02Exec(cs c02Case) (out core.Outcome, key string, uniform bool) {
 		}
 		if p := guard(func() { op.applyReal(refs) }); p != "" {
 			return fail("panic-in-edit", "%s: %s", op, p)
+		}
+	}
+	// the same single edit made through dstutil.Apply (the cursor's Delete / InsertAfter in the post callback, the pre
+	// callback declining to descend into the element's children) must give the tree the direct slice edit gives
+	if len(cs.Hist) == 1 {
+		if op := c02Ops[cs.Hist[0]]; op.Kind == "delete" || op.Kind == "dup-after" {
+			var files2 []*dst.File
+			for _, src := range srcs {
+				f2, err := decorator.Parse(src)
+				if err != nil {
+					panic(err)
+				}
+				files2 = append(files2, f2)
+			}
+			target := k.Locate(files2)[op.L].All()[op.I]
+			if p := guard(func() {
+				for _, f2 := range files2 {
+					dstutil.Apply(f2, func(c *dstutil.Cursor) bool { return c.Parent() != target }, func(c *dstutil.Cursor) bool {
+						if c.Node() == target {
+							if op.Kind == "delete" {
+								c.Delete()
+							} else {
+								c.InsertAfter(dst.Clone(target))
+							}
+						}
+						return true
+					})
+				}
+			}); p != "" {
+				return fail("panic-in-edit-through-apply", "%s: %s", op, p)
+			}
+			for i := range files {
+				direct, derr := printFile(files[i])
+				via, verr := printFile(files2[i])
+				if derr == nil && (verr != nil || via != direct) {
+					return fail("edit-through-apply-differs:"+k.Name, "file %d: %s made through dstutil.Apply (post callback, children of the element pruned in pre) gives another tree than the direct slice edit (error %v)\n%s", i, op, verr, diffDesc(direct, via))
+				}
+			}
 		}
 	}
 	key = fmt.Sprint(lists)
